@@ -41,9 +41,18 @@ class Family:
     def classify(self, ctx, sc, py):
         pass
 
-    def first_diff(self, py, lean):
+    def known(self, sc, i, a, b):
+        """signature of a recorded known finding that explains this difference, or None"""
+        return None
+
+    def first_diff(self, py, lean, sc=None, hits=None):
         for i, (a, b) in enumerate(zip(py, lean)):
             if a != b:
+                sig = self.known(sc, i, a, b) if sc is not None else None
+                if sig:
+                    if hits is not None:
+                        hits.add(sig)
+                    continue
                 return i, f"step {i}: python {json.dumps(a)[:400]} model {json.dumps(b)[:400]}"
         if len(py) != len(lean):
             return min(len(py), len(lean)), f"python has {len(py)} records, model {len(lean)}"
@@ -79,7 +88,10 @@ class Family:
             lean = outs.get(sc["id"], {"error": "no output"})
             if "error" in lean:
                 raise RuntimeError("driver: " + lean["error"])
-            i, detail = self.first_diff(py, lean["out"][self.out_key])
+            hits = set()
+            i, detail = self.first_diff(py, lean["out"][self.out_key], sc, hits)
+            for sig in hits:
+                ctx.known_hits.append(sig)
             if detail:
                 v = dict(level="spec", what=f"python vs model ({self.what})", detail=detail,
                          scenario={k: x for k, x in sc.items() if k != "id"}, family=self.name, label=label)
@@ -97,7 +109,7 @@ class Family:
         out = corr.run_driver([sc], procs=1).get(0)
         if not out or "error" in out:
             return None
-        _, d = self.first_diff(py, out["out"][self.out_key])
+        _, d = self.first_diff(py, out["out"][self.out_key], sc, set())
         return d
 
     def shrink(self, v, budget_s=10.0):
@@ -157,6 +169,8 @@ class MutateFamily(Family):
 
     def gen(self, rng, profile):
         import gen_mut
+        if profile in ("descr", "listview"):
+            return gen_mut.gen_views(rng, profile)
         return gen_mut.gen_mutate(rng, profile)
 
     def observe(self, sc):
@@ -164,8 +178,21 @@ class MutateFamily(Family):
         return observe_mutate(sc)
 
     def nontrivial(self, sc, py):
-        # at least one operation changed the document
-        return any(a["g"] != b["g"] for a, b in zip(py, py[1:]))
+        # at least one operation changed the document (views: or read something through a view)
+        if any(a["g"] != b["g"] for a, b in zip(py, py[1:])):
+            return True
+        return any(r["r"][0] in ("vals", "view") or (r["r"][0] == "ok" and len(r["r"]) > 1) for r in py[1:])
+
+    def known(self, sc, i, a, b):
+        if i == 0 or i > len(sc["ops"]):
+            return None
+        op = sc["ops"][i - 1]
+        # F5: assignment to an iterator-typed attribute declared without an expression raises
+        # AttributeError instead of SetError (document unchanged)
+        if op[0] == "d.set" and op[2] == "iter" and op[1][-1][1] is None and a["g"] == b["g"] \
+                and a["r"] == ["err", ["AttributeError"]] and b["r"] == ["err", ["SetError"]]:
+            return "C18-iter-default-expression-assign"
+        return None
 
     def classify(self, ctx, sc, py):
         for op, rec in zip(sc["ops"], py[1:]):
